@@ -193,9 +193,13 @@ func parseAOF(b []byte) ([][]string, error) {
 }
 
 func run(r *hx.Result, cfg hx.Config) {
-	r.Rule = "N concurrent connections issue SET/GET/DEL/SCAN/KEYS on shared collections (each client owns its ids) while designated clients issue the multi-object commands PDEL, DROP, RENAME, FLUSHDB; every operation is timestamped at send and receive. The append-only file gives the write order. Checked: AOF order respects real-time order of acknowledged writes; each logged write's reply equals the sequential model's at its AOF position; each other reply equals the model's at some position allowed by real time (so no reader sees a half-applied PDEL/DROP/RENAME/FLUSHDB). Runs use both lock implementations (default and --spinlock). non-trivial = distinct history in which at least two clients had operations in flight at the same time and a multi-object command took effect."
+	r.Rule = "N concurrent connections issue SET/GET/DEL/SCAN/KEYS on shared collections (each client owns its ids) while designated clients issue the multi-object commands PDEL, DROP, RENAME, FLUSHDB; every operation is timestamped at send and receive. The append-only file gives the write order. Checked: AOF order respects real-time order of acknowledged writes; each logged write's reply equals the sequential model's at its AOF position; each other reply equals the model's at some position allowed by real time (so no reader sees a half-applied PDEL/DROP/RENAME/FLUSHDB). Runs use both lock implementations (default and --spinlock); one client issues long reads (EVALRO busy loops) that hold the shared lock. Before the random histories: (a) a directed schedule SET EX / long read just after the deadline / SET without EX during the read / GET, judged by the same history checker (a del logged by the expiry pass must find an object that carries a deadline at its log position); (b) a live geofence connection while 3-5 connections write in pipelined bursts: notification order = order of the logged writes inside the fence, once; (c) on an unchanging dataset, the replies of 10-12 connections reading at the same time (SCAN/SEARCH/WITHIN/INTERSECTS/NEARBY with WHERE range, WHERE expression, WHEREIN, WHEREEVAL, MATCH, also through EVALRO) = the replies of the same commands sent one at a time. non-trivial = distinct history in which at least two clients had operations in flight at the same time and a multi-object command took effect."
 	r.Assumptions = []string{"client-side timestamps bound the server-side instant of each command", "the sequential model here is a Go transcription of the string-object subset (SET STRING/GET/DEL/PDEL/DROP/RENAME/FLUSHDB/SCAN IDS/KEYS)"}
 	rng := rand.New(rand.NewSource(cfg.Seed))
+	// directed regression schedules and model-free oracles first
+	runSweepUnderReader(r, cfg)
+	runLiveOrder(r, cfg, rng)
+	runReaders(r, cfg, rng)
 	histories := 6
 	perClient := 120
 	if cfg.Tier == "thorough" || cfg.Search {
@@ -243,6 +247,13 @@ func run(r *hx.Result, cfg hx.Config) {
 						a = []string{"RENAME", "m", "n"}
 					case ci == 2 && x < 6:
 						a = []string{"FLUSHDB"}
+					case ci == 3 && x < 5:
+						// a long read: holds the shared lock while the others (and the expiry pass) go on.
+						// Not part of the sequential model here; its reply is checked on the spot.
+						if v, err := c.Do("EVALRO", "local t = os.clock() while os.clock() - t < 0.12 do end return 'done'", "0"); err != nil || v.Str != "done" {
+							r.Fail(hx.Failure{Kind: "oracle", Signature: "long-read-reply", What: fmt.Sprintf("EVALRO busy loop replied %s %v", v.String(), err)})
+						}
+						continue
 					case x < 45:
 						a = []string{"SET", k, id, "STRING", fmt.Sprintf("v%d.%d.%d", h, ci, j)}
 					case x < 52:
@@ -283,148 +294,172 @@ func run(r *hx.Result, cfg hx.Config) {
 			r.Fail(hx.Failure{Kind: "oracle", Signature: "server-died", What: "the server exited during a concurrent history: " + s.LogTail(600)})
 			continue
 		}
-		raw, _ := os.ReadFile(filepath.Join(dir, "appendonly.aof"))
-		aof, err := parseAOF(raw)
-		if err != nil {
-			r.Fail(hx.Failure{Kind: "oracle", Signature: "aof-unparsable", What: err.Error()})
+		res, ok := checkHistory(r, dir, ops, map[string]interface{}{"history": h, "clients": nclients, "spinlock": h%2 == 1})
+		if !ok {
 			continue
 		}
-		// map AOF entries to client operations: per (client-agnostic) argument string, the k-th
-		// logged occurrence is the k-th operation with those arguments whose reply says "updated"
-		updated := func(o *op) bool {
-			switch o.args[0] {
-			case "SET", "FLUSHDB":
-				return o.reply == "+OK"
-			case "RENAME":
-				return o.reply == "+OK"
-			case "DEL", "DROP":
-				return o.reply == ":1"
-			case "PDEL":
-				return strings.HasPrefix(o.reply, ":") && o.reply != ":0"
-			}
-			return false
-		}
-		pending := map[string][]*op{}
-		for ci := range ops {
-			for _, o := range ops[ci] {
-				if updated(o) {
-					k := strings.Join(o.args, "\x00")
-					pending[k] = append(pending[k], o)
-				}
-			}
-		}
-		var writes []*op
-		bad := false
-		sweeps := 0
-		for i, e := range aof {
-			if e[0] == "del" && len(e) == 3 {
-				// written by the expiry sweeper (clients send upper-case command words)
-				writes = append(writes, &op{client: -1, args: []string{"SWEEPDEL", e[1], e[2]}, idx: i})
-				sweeps++
-				continue
-			}
-			e[0] = strings.ToUpper(e[0])
-			k := strings.Join(e, "\x00")
-			q := pending[k]
-			if len(q) == 0 {
-				r.Fail(hx.Failure{Kind: "oracle", Signature: "aof-unexpected-entry", What: fmt.Sprintf("AOF entry %d %q corresponds to no acknowledged updating command", i, e)})
-				bad = true
-				break
-			}
-			q[0].idx = i
-			writes = append(writes, q[0])
-			pending[k] = q[1:]
-		}
-		if bad {
-			continue
-		}
-		for k, q := range pending {
-			if len(q) > 0 {
-				r.Fail(hx.Failure{Kind: "oracle", Signature: "acked-write-not-in-aof", What: fmt.Sprintf("%d acknowledged updating command(s) %q are missing from the AOF", len(q), strings.Split(k, "\x00"))})
-				bad = true
-			}
-		}
-		if bad {
-			continue
-		}
-		// states after each prefix of the log, and the model reply of each logged write
-		states := []state{{}}
-		cur := state{}
-		overlap := false
-		for i, w := range writes {
-			if w.client == -1 {
-				// a delete issued by the sweeper is justified only if, at this point of the serial
-				// order, the object exists and carries a deadline
-				v, ok := cur[w.args[1]][w.args[2]]
-				if !ok || !hasDeadline(v) {
-					r.Fail(hx.Failure{Kind: "oracle", Signature: "sweeper-deleted-live-object", What: fmt.Sprintf("log position %d: the expiry sweeper deleted %s/%s, which at that point of the serial order %s", i, w.args[1], w.args[2], map[bool]string{true: "had no deadline (it had been re-SET without EX)", false: "did not exist"}[ok])})
-				}
-				exec(cur, []string{"DEL", w.args[1], w.args[2]})
-				states = append(states, cur.clone())
-				continue
-			}
-			rep := exec(cur, w.args)
-			if rep != w.reply {
-				r.Fail(hx.Failure{Kind: "oracle", Signature: "write-reply-not-sequential", What: fmt.Sprintf("logged write #%d %q replied %s, the sequential model at its log position replies %s", i, w.args, w.reply, rep)})
-			}
-			states = append(states, cur.clone())
-			if i > 0 && writes[i-1].client != -1 && writes[i-1].recv.After(w.send) && writes[i-1].client != w.client {
-				overlap = true
-			}
-			// real-time order
-			for j := i - 1; j >= 0 && j > i-40; j-- {
-				if writes[j].client != -1 && w.recv.Before(writes[j].send) {
-					r.Fail(hx.Failure{Kind: "oracle", Signature: "aof-order-vs-realtime", What: fmt.Sprintf("write %q was acknowledged before %q was sent, but is logged after it", w.args, writes[j].args)})
-				}
-			}
-		}
-		// every other operation: some allowed position
-		multi := 0
-		for _, w := range writes {
-			if w.args[0] == "PDEL" || w.args[0] == "DROP" || w.args[0] == "RENAME" || w.args[0] == "FLUSHDB" {
-				multi++
-			}
-		}
-		checked := 0
-		for ci := range ops {
-			for _, o := range ops[ci] {
-				if o.idx >= 0 {
-					continue
-				}
-				lo, hi := 0, len(writes)
-				for i, w := range writes {
-					if w.client != -1 && w.recv.Before(o.send) && i+1 > lo {
-						lo = i + 1
-					}
-				}
-				for i, w := range writes {
-					if w.client != -1 && w.send.After(o.recv) {
-						hi = i
-						break
-					}
-				}
-				ok := false
-				var tried []string
-				for p := lo; p <= hi && p < len(states); p++ {
-					rep := exec(states[p].clone(), o.args)
-					if rep == o.reply {
-						ok = true
-						break
-					}
-					if len(tried) < 4 {
-						tried = append(tried, rep)
-					}
-				}
-				checked++
-				if !ok {
-					r.Fail(hx.Failure{Kind: "oracle", Signature: "reply-not-linearizable", What: fmt.Sprintf("client %d: %q replied %s; no log position in [%d,%d] gives that reply (model replies there: %v)", o.client, o.args, o.reply, lo, hi, tried),
-						Case: map[string]interface{}{"history": h, "clients": nclients, "spinlock": h%2 == 1}})
-				}
-			}
-		}
+		writes, multi, checked, sweeps, overlap := make([]struct{}, res.writes), res.multi, res.checked, res.sweeps, res.overlap
 		r.Count(fmt.Sprintf("history %d: %d clients, %d logged writes, %d multi-object, %d other replies placed", h, nclients, len(writes), multi, checked), overlap && multi > 0)
 		r.Dist(fmt.Sprintf("lock:%v", extra))
 		r.TracesImpl++
 		r.Sample(4, map[string]interface{}{"clients": nclients, "ops": nclients * perClient, "logged_writes": len(writes), "multi_object_writes": multi, "sweeper_deletes": sweeps, "non_logged_replies_placed": checked, "spinlock": h%2 == 1})
 	}
+}
+
+type hres struct {
+	writes, multi, checked, sweeps int
+	overlap                        bool
+}
+
+// checkHistory: the append-only file of dir against the timestamped operations of the clients.
+// Operations whose command word is not part of the sequential model here (long-running reads that
+// only serve to hold the shared lock) must be filtered out by the caller.
+func checkHistory(r *hx.Result, dir string, ops [][]*op, cas map[string]interface{}) (hres, bool) {
+	raw, _ := os.ReadFile(filepath.Join(dir, "appendonly.aof"))
+	aof, err := parseAOF(raw)
+	if err != nil {
+		r.Fail(hx.Failure{Kind: "oracle", Signature: "aof-unparsable", What: err.Error()})
+		return hres{}, false
+	}
+	// map AOF entries to client operations: per (client-agnostic) argument string, the k-th
+	// logged occurrence is the k-th operation with those arguments whose reply says "updated"
+	updated := func(o *op) bool {
+		switch o.args[0] {
+		case "SET", "FLUSHDB":
+			return o.reply == "+OK"
+		case "RENAME":
+			return o.reply == "+OK"
+		case "DEL", "DROP":
+			return o.reply == ":1"
+		case "PDEL":
+			return strings.HasPrefix(o.reply, ":") && o.reply != ":0"
+		}
+		return false
+	}
+	pending := map[string][]*op{}
+	for ci := range ops {
+		for _, o := range ops[ci] {
+			if updated(o) {
+				k := strings.Join(o.args, "\x00")
+				pending[k] = append(pending[k], o)
+			}
+		}
+	}
+	var writes []*op
+	bad := false
+	sweeps := 0
+	for i, e := range aof {
+		if e[0] == "del" && len(e) == 3 {
+			// written by the expiry sweeper (clients send upper-case command words)
+			writes = append(writes, &op{client: -1, args: []string{"SWEEPDEL", e[1], e[2]}, idx: i})
+			sweeps++
+			continue
+		}
+		e[0] = strings.ToUpper(e[0])
+		k := strings.Join(e, "\x00")
+		q := pending[k]
+		if len(q) == 0 {
+			r.Fail(hx.Failure{Kind: "oracle", Signature: "aof-unexpected-entry", What: fmt.Sprintf("AOF entry %d %q corresponds to no acknowledged updating command", i, e)})
+			bad = true
+			break
+		}
+		q[0].idx = i
+		writes = append(writes, q[0])
+		pending[k] = q[1:]
+	}
+	if bad {
+		return hres{}, false
+	}
+	for k, q := range pending {
+		if len(q) > 0 {
+			r.Fail(hx.Failure{Kind: "oracle", Signature: "acked-write-not-in-aof", What: fmt.Sprintf("%d acknowledged updating command(s) %q are missing from the AOF", len(q), strings.Split(k, "\x00"))})
+			bad = true
+		}
+	}
+	if bad {
+		return hres{}, false
+	}
+	// states after each prefix of the log, and the model reply of each logged write
+	states := []state{{}}
+	cur := state{}
+	overlap := false
+	for i, w := range writes {
+		if w.client == -1 {
+			// a delete issued by the sweeper is justified only if, at this point of the serial
+			// order, the object exists and carries a deadline
+			v, ok := cur[w.args[1]][w.args[2]]
+			if !ok || !hasDeadline(v) {
+				prev := "nothing"
+				for j := i - 1; j >= 0; j-- {
+					if p := writes[j]; p.client != -1 && len(p.args) > 2 && p.args[1] == w.args[1] && p.args[2] == w.args[2] {
+						prev = fmt.Sprintf("%q by client %d (log position %d, acknowledged %s)", p.args, p.client, j, p.reply)
+						break
+					}
+				}
+				r.Fail(hx.Failure{Kind: "oracle", Signature: "sweeper-deleted-live-object", What: fmt.Sprintf("log position %d: the expiry sweeper deleted %s/%s, which at that point of the serial order %s; the last logged command on that id before it: %s", i, w.args[1], w.args[2], map[bool]string{true: "had no deadline (it had been re-SET without EX)", false: "did not exist"}[ok], prev), Case: cas})
+			}
+			exec(cur, []string{"DEL", w.args[1], w.args[2]})
+			states = append(states, cur.clone())
+			continue
+		}
+		rep := exec(cur, w.args)
+		if rep != w.reply {
+			r.Fail(hx.Failure{Kind: "oracle", Signature: "write-reply-not-sequential", What: fmt.Sprintf("logged write #%d %q replied %s, the sequential model at its log position replies %s", i, w.args, w.reply, rep)})
+		}
+		states = append(states, cur.clone())
+		if i > 0 && writes[i-1].client != -1 && writes[i-1].recv.After(w.send) && writes[i-1].client != w.client {
+			overlap = true
+		}
+		// real-time order
+		for j := i - 1; j >= 0 && j > i-40; j-- {
+			if writes[j].client != -1 && w.recv.Before(writes[j].send) {
+				r.Fail(hx.Failure{Kind: "oracle", Signature: "aof-order-vs-realtime", What: fmt.Sprintf("write %q was acknowledged before %q was sent, but is logged after it", w.args, writes[j].args)})
+			}
+		}
+	}
+	// every other operation: some allowed position
+	multi := 0
+	for _, w := range writes {
+		if w.args[0] == "PDEL" || w.args[0] == "DROP" || w.args[0] == "RENAME" || w.args[0] == "FLUSHDB" {
+			multi++
+		}
+	}
+	checked := 0
+	for ci := range ops {
+		for _, o := range ops[ci] {
+			if o.idx >= 0 {
+				continue
+			}
+			lo, hi := 0, len(writes)
+			for i, w := range writes {
+				if w.client != -1 && w.recv.Before(o.send) && i+1 > lo {
+					lo = i + 1
+				}
+			}
+			for i, w := range writes {
+				if w.client != -1 && w.send.After(o.recv) {
+					hi = i
+					break
+				}
+			}
+			ok := false
+			var tried []string
+			for p := lo; p <= hi && p < len(states); p++ {
+				rep := exec(states[p].clone(), o.args)
+				if rep == o.reply {
+					ok = true
+					break
+				}
+				if len(tried) < 4 {
+					tried = append(tried, rep)
+				}
+			}
+			checked++
+			if !ok {
+				r.Fail(hx.Failure{Kind: "oracle", Signature: "reply-not-linearizable", What: fmt.Sprintf("client %d: %q replied %s; no log position in [%d,%d] gives that reply (model replies there: %v)", o.client, o.args, o.reply, lo, hi, tried),
+					Case: cas})
+			}
+		}
+	}
+	return hres{len(writes), multi, checked, sweeps, overlap}, true
 }
